@@ -356,6 +356,7 @@ func expandGuard(cond ast.Expr, val bool, out *[]Guard) {
 			return
 		}
 	}
+	cond = canonCompare(cond)
 	*out = append(*out, Guard{Cond: cond, Val: val})
 	// a false (in)equality is also reported in its positive form, so that rules need not know
 	// which way round a condition was written: !(a != b) => a == b, !(a == b) => a != b
@@ -571,4 +572,82 @@ func (f *FCFG) PathAvoidingEdges(target, barrier func(ast.Node) bool, edgeOK fun
 		return true, trail
 	}
 	return false, nil
+}
+
+// reachesBlock reports whether the block target can be reached from the
+// statement after from.
+func (f *FCFG) reachesBlock(from ast.Node, target *cfg.Block) bool {
+	b, _, ok := f.Pos(from)
+	if !ok {
+		return false
+	}
+	visited := map[int32]bool{}
+	var walk func(b *cfg.Block) bool
+	walk = func(b *cfg.Block) bool {
+		for _, s := range b.Succs {
+			if s == target {
+				return true
+			}
+			if visited[s.Index] {
+				continue
+			}
+			visited[s.Index] = true
+			if walk(s) {
+				return true
+			}
+		}
+		return false
+	}
+	return walk(b)
+}
+
+// guardConst is set by the loader: it reports whether an expression is a
+// compile time constant (or nil) according to the type information.
+var guardConst func(e ast.Expr) bool
+
+func isLiteralOperand(e ast.Expr) bool {
+	e = ast.Unparen(e)
+	switch t := e.(type) {
+	case *ast.BasicLit:
+		return true
+	case *ast.Ident:
+		if t.Name == "nil" {
+			return true
+		}
+	case *ast.UnaryExpr:
+		if t.Op == token.SUB || t.Op == token.ADD {
+			return isLiteralOperand(t.X)
+		}
+	}
+	return guardConst != nil && guardConst(e)
+}
+
+// canonCompare writes a comparison whose left operand is a constant and whose
+// right operand is not with the constant on the right (0 > x becomes x < 0),
+// so that rules need not know which way round a condition was written. The
+// new node shares its operands with the source.
+func canonCompare(cond ast.Expr) ast.Expr {
+	be, ok := cond.(*ast.BinaryExpr)
+	if !ok {
+		return cond
+	}
+	var op token.Token
+	switch be.Op {
+	case token.EQL, token.NEQ:
+		op = be.Op
+	case token.LSS:
+		op = token.GTR
+	case token.GTR:
+		op = token.LSS
+	case token.LEQ:
+		op = token.GEQ
+	case token.GEQ:
+		op = token.LEQ
+	default:
+		return cond
+	}
+	if !isLiteralOperand(be.X) || isLiteralOperand(be.Y) {
+		return cond
+	}
+	return &ast.BinaryExpr{X: be.Y, OpPos: be.OpPos, Op: op, Y: be.X}
 }
